@@ -30,7 +30,9 @@ Record shape := {
   sh_by0 : bool;         (* Increment*: IncrementBy == 0 *)
   sh_key_empty : bool;   (* Lock/Unlock: Key == "" *)
   sh_id_empty : bool;    (* Unlock: LockID == "" *)
-  sh_wkey_empty : bool   (* Set / Uint32SlicePush / Increment*: a treasure key to be written is "" *)
+  sh_wkey_empty : bool;  (* Set / Uint32SlicePush / Increment*: a treasure key to be written is "" *)
+  sh_wkey_long : bool    (* ... or longer than 65535 bytes (the 16-bit key length of the V2 swamp file);
+                            the limit is the same for persistent and in-memory swamps *)
 }.
 
 Inductive outcome :=
@@ -57,7 +59,7 @@ Definition validate (c : vcfg) (h : handler) (sh : shape) : outcome :=
   | HSet =>
       match check_shape c sh false false with
       | Proceed => if sh_kvnil sh then Reject EInvalid false
-                   else if sh_wkey_empty sh then Reject EInvalid false else Proceed
+                   else if sh_wkey_empty sh || sh_wkey_long sh then Reject EInvalid false else Proceed
       | o => o
       end
   | HGet =>   (* one swamp in the request: existence is checked up front *)
@@ -84,12 +86,12 @@ Definition validate (c : vcfg) (h : handler) (sh : shape) : outcome :=
       match sh_name sh with
       | NEmpty => Reject EInvalid false
       | _ => if sh_by0 sh then Reject EInvalid false
-             else if sh_wkey_empty sh then Reject EInvalid false
+             else if sh_wkey_empty sh || sh_wkey_long sh then Reject EInvalid false
              else check_shape c sh false false
       end
   | HPush =>
       match check_shape c sh false false with
-      | Proceed => if sh_wkey_empty sh then Reject EInvalid false else Proceed
+      | Proceed => if sh_wkey_empty sh || sh_wkey_long sh then Reject EInvalid false else Proceed
       | o => o
       end
   | HSlDel | HSize | HIsVal | HDestroy => check_shape c sh false false
